@@ -69,7 +69,6 @@ Definition fp_records (hdr : list N) (ts : list tri) : Z * Z :=
 Definition fp_vecs (vs : list vec) : Z * Z := fp_out (fold_left (fun h v => fp_list h (vec_words v)) vs fp0).
 
 (* ---------- synthetic inputs (the harness computes the same in uint64 arithmetic) ---------- *)
-Fixpoint iota (k : nat) (a : N) : list N := match k with O => [] | S k' => a :: iota k' (a + 1) end.
 
 (* a finite, normal, non-zero float32 bit pattern: sign | exponent 120..135 | 23 mantissa bits, all simple
    functions of v = 13 i + k + seed (shifts and masks only: N division is slow under vm_compute) *)
@@ -84,9 +83,9 @@ Definition synth_tri (seed : N) (zn : bool) (i : N) : tri :=
   {| tn := if zn then (if N.land i 1 =? 0 then vzero else (2147483648, 0, 2147483648)) else synth_vec seed (4 * i);
      ta := synth_vec seed (4 * i + 1); tb := synth_vec seed (4 * i + 2); tc := synth_vec seed (4 * i + 3);
      tattr := N.land (7 * i + seed) 65535 |}.
-Definition synth_tris (seed : N) (zn : bool) (n : N) : list tri := map (synth_tri seed zn) (iota (N.to_nat n) 0).
-Definition synth_hdr (seed : N) : list N := map (fun j => N.land (j * 11 + seed) 255) (iota 80 0).
-Definition synth_extra (seed k : N) : list N := map (fun j => N.land (j * 37 + seed) 255) (iota (N.to_nat k) 0).
+Definition synth_tris (seed : N) (zn : bool) (n : N) : list tri := map (synth_tri seed zn) (iotaN (N.to_nat n) 0).
+Definition synth_hdr (seed : N) : list N := map (fun j => N.land (j * 11 + seed) 255) (iotaN 80 0).
+Definition synth_extra (seed k : N) : list N := map (fun j => N.land (j * 37 + seed) 255) (iotaN (N.to_nat k) 0).
 
 Definition idxf (nv a b c j : N) : N := (a * j + b * (j / 3) + c) mod nv.
 (* +-x, +-y, +-z as float32 words: the facet normal of a triangle whose three corner normals are that axis *)
@@ -97,17 +96,12 @@ Definition axis (d : N) : vec :=
   end.
 Definition mesh_fn (ndir : option N) : vec := match ndir with Some d => axis d | None => vzero end.
 
-Definition word32b' (w : N) : bool := w <? 4294967296.
-Definition vec_okb (v : vec) : bool := let '(x, y, z) := v in word32b' x && word32b' y && word32b' z.
-Definition tri_okb (t : tri) : bool :=
-  vec_okb (tn t) && vec_okb (ta t) && vec_okb (tb t) && vec_okb (tc t) && (tattr t <? 65536).
-
 (* ---------- expected observables of a large ReadMesh result, from the records it should be made of ---------- *)
 Definition triple {A} (x : A) : list A := [x; x; x].
 Definition bigmesh_matches (ts : list tri) (m : bigmesh) : bool :=
   let n := N.of_nat (length ts) in
   (b_nverts m =? 3 * n) && (b_nidx m =? 3 * n)
-  && fp_eqb (b_idx_fp m) (fp (iota (3 * length ts) 0))
+  && fp_eqb (b_idx_fp m) (fp (iotaN (3 * length ts) 0))
   && fp_eqb (b_pos_fp m) (fp_vecs (flat_map (fun t => [ta t; tb t; tc t]) ts))
   && opt_eqb fp_eqb (b_nrm_fp m)
        (if existsb (fun t => negb (vec_zero (tn t))) ts
@@ -128,14 +122,52 @@ Definition bigmesh_tris (n nv a b c seed : N) (ndir : option N) : list tri :=
    model's answer is taken from the theorems read_write_trailing / read_prefix_rejected (StlProofs) *)
 Definition exec_limit : N := 4200.
 
+(* ---------- signalling NaNs ----------
+   encoding/binary decodes a float32 struct field as float32 -> float64 -> float32 (reflection path), and
+   stl.ReadMesh widens to float64: both set the quiet bit (bit 22) of a signalling NaN and leave every other
+   pattern (incl. quiet NaN payloads, infinities, -0, subnormals) alone.  The model of Formats/Stl.v is
+   bit-transparent; words are compared modulo this canonicalisation (finding F1 in notes/C07.md). *)
+Definition quiet (w : N) : N :=
+  if (N.land (N.shiftr w 23) 255 =? 255) && negb (N.land w 8388607 =? 0) && (N.land (N.shiftr w 22) 1 =? 0)
+  then w + 4194304 else w.
+Definition quiet_vec (v : vec) : vec := let '(x, y, z) := v in (quiet x, quiet y, quiet z).
+Definition quiet_tri (t : tri) : tri :=
+  {| tn := quiet_vec (tn t); ta := quiet_vec (ta t); tb := quiet_vec (tb t); tc := quiet_vec (tc t); tattr := tattr t |}.
+Definition quiet_nrm (x : nrm) : nrm := match x with Stored v => Stored (quiet_vec v) | Flat => Flat end.
+Definition quiet_rmesh (m : rmesh) : rmesh :=
+  {| r_nverts := r_nverts m; r_idx := r_idx m; r_pos := map quiet_vec (r_pos m);
+     r_nrm := option_map (map quiet_nrm) (r_nrm m) |}.
+(* the same on the bytes of a file, without the record parser: third byte of each of the 12 float words of every
+   50-byte record after the 84-byte preamble *)
+Definition quiet_b2 (b0 b1 b2 b3 : N) : N :=
+  if (N.land b3 127 =? 127) && (N.land b2 192 =? 128) && negb ((N.land b2 63 =? 0) && (b1 =? 0) && (b0 =? 0))
+  then b2 + 64 else b2.
+Fixpoint quiet_words (k : nat) (l : list N) : list N :=
+  match k with
+  | O => l
+  | S k' => match l with
+            | b0 :: b1 :: b2 :: b3 :: r => b0 :: b1 :: quiet_b2 b0 b1 b2 b3 :: b3 :: quiet_words k' r
+            | _ => l
+            end
+  end.
+Fixpoint quiet_recs (fuel : nat) (l : list N) : list N :=
+  match fuel with
+  | O => l
+  | S f => match l with
+           | [] => []
+           | _ => quiet_words 12 (firstn 50 l) ++ quiet_recs f (skipn 50 l)
+           end
+  end.
+Definition quiet_file (l : list N) : list N := firstn 84 l ++ quiet_recs (length l) (skipn 84 l).
+
 (* ---------- model vs implementation ---------- *)
 Definition corr_ok (c : case) : bool :=
   match c with
   | CMesh idx pos fns ib ir =>
       opt_eqb bytes_eqb (write_mesh idx pos fns) (Some ib) && opt_eqb rmesh_eqb (read_mesh ib) ir
   | CBytes input out =>
-      opt_eqb bytes_eqb (match read_chunked stl_chunk input with Some (h, ts) => Some (write h ts) | None => None end) out
-  | CRead input ir => opt_eqb rmesh_eqb (read_mesh input) ir
+      opt_eqb bytes_eqb (match read_chunked stl_chunk input with Some (h, ts) => Some (write h (map quiet_tri ts)) | None => None end) out
+  | CRead input ir => opt_eqb rmesh_eqb (option_map quiet_rmesh (read_mesh input)) ir
   | CBigFile n seed zn extra cut in_fp rd wr rm =>
       let hdr := synth_hdr seed in
       let ts := synth_tris seed zn n in
@@ -153,11 +185,11 @@ Definition corr_ok (c : case) : bool :=
              && opt_all (bigmesh_matches ts') rm
          end
        else
-         (* beyond exec_limit the model is not executed: by StlBigProofs.big_file_model its answer on these bytes
+         (* beyond exec_limit the model is not executed: by StlProofs.big_file_model its answer on these bytes
             is Some (hdr, ts) (None when cut short), i.e. exactly what prop_ok compares the implementation with *)
          true)
   | CBigMesh n nv a b c part seed ndir wr rm =>
-      (* StlBigProofs.gather_tris_fun: gather_tris on the index list (map idxf) and position list (map synth_vec)
+      (* StlProofs.big_mesh_model: gather_tris on the index list (map idxf) and position list (map synth_vec)
          yields bigmesh_tris; the bytes are [write zero_hdr] of them; what ReadMesh returns is judged by prop_ok *)
       let ts := bigmesh_tris n nv a b c seed ndir in
       opt_all (fun '(len, f) => (len =? 84 + 50 * n) && fp_eqb f (fp_file zero_hdr ts [])) wr
@@ -169,6 +201,13 @@ Definition prop_ok (c : case) : bool :=
   | CMesh idx pos fns ib ir =>
       let n := match pos with Some _ => (length idx / 3)%nat | None => O end in
       Nat.eqb (length ib) (84 + 50 * n) &&
+      (* record layout, by the independent record parser [read] on the implementation's bytes: count field n,
+         12 little-endian float words per record = the corner positions gathered through the index *)
+      match pos with
+      | Some p => opt_all (fun '(_, ts) => Nat.eqb (length ts) n &&
+                             list_eqb vec_eqb (rm_pos ts) (map (fun i => nth i p vzero) (firstn (3 * n) idx))) (read ib)
+      | None => opt_all (fun '(_, ts) => Nat.eqb (length ts) 0) (read ib)
+      end &&
       match ir, pos with
       | Some m, Some p =>
           let k := (3 * n)%nat in
@@ -184,25 +223,26 @@ Definition prop_ok (c : case) : bool :=
       | None, _ => false
       end
   | CBytes input out =>
-      (* complete file: Write (Read b) = b; trailing bytes (not a well-formed file): if accepted, the announced
+      (* complete file: Write (Read b) = b (signalling NaNs quieted: F1); trailing bytes (not a well-formed file): if accepted, the announced
          records are reproduced; truncated: rejected *)
       match announced input with
       | Some n =>
           let want := 84 + 50 * n in
           let len := N.of_nat (length input) in
           if len <? want then opt_none out
-          else if len =? want then opt_all (fun o => bytes_eqb o input) out
-          else opt_any (fun o => bytes_eqb o (firstn (N.to_nat want) input)) out
+          else if len =? want then opt_all (fun o => bytes_eqb o (quiet_file input)) out
+          else opt_any (fun o => bytes_eqb o (quiet_file (firstn (N.to_nat want) input))) out
       | None => opt_none out
       end
   | CRead input ir =>
       (* complete file: 3n vertices with identity indices; truncated file: rejected *)
       match announced input with
-      | Some n => if (N.of_nat (length input) <? 84 + 50 * n)
-                  then match ir with None => true | Some _ => false end
-                  else match ir with
-                       | Some m => (r_nverts m =? N.to_nat (3 * n))%nat && list_eqb Nat.eqb (r_idx m) (seq 0 (N.to_nat (3 * n)))
-                       | None => false end
+      | Some n =>
+          let len := N.of_nat (length input) in
+          let ok := fun m => (r_nverts m =? N.to_nat (3 * n))%nat && list_eqb Nat.eqb (r_idx m) (seq 0 (N.to_nat (3 * n))) in
+          if len <? 84 + 50 * n then opt_none ir
+          else if len =? 84 + 50 * n then opt_all ok ir
+          else opt_any ok ir     (* trailing bytes: not a well-formed file; if accepted, the announced records *)
       | None => match ir with None => true | Some _ => false end
       end
   | CBigFile n seed zn extra cut in_fp rd wr rm =>
